@@ -13,6 +13,21 @@ class UseSetLiteral(SimpleCodemod, NameResolutionMixin):
     )
     change_description = "Replace sets from lists with set literals"
 
+    def leave_FormattedStringExpression(
+        self,
+        original_node: cst.FormattedStringExpression,
+        updated_node: cst.FormattedStringExpression,
+    ):
+        # `f"{set([a])}"` must not become `f"{{a}}"`: two braces are an escaped brace, not a replacement field
+        if (
+            not updated_node.whitespace_before_expression.empty
+            or not cst.Module([]).code_for_node(updated_node.expression).startswith("{")
+        ):
+            return updated_node
+        return updated_node.with_changes(
+            whitespace_before_expression=cst.SimpleWhitespace(" ")
+        )
+
     def leave_Call(self, original_node: cst.Call, updated_node: cst.Call):
         if not self.filter_by_path_includes_or_excludes(
             self.node_position(original_node)
